@@ -747,10 +747,10 @@ var prop = &hx.Prop{
 	ID: "C13", Gen: gen, Decode: decode, Exec: exec, Shrink: shrink,
 	Components: map[string]string{
 		"std/net/http Server, route registration, Handler, middleware stack, onError/onFormat, bufferedWriter, ResponseWriter methods": "real (instrumented copy of /repo)",
-		"Go net/http ServeMux":             "real",
-		"TCP listener, http.Server, conn":  "simulated: requests enter through ServeMux.ServeHTTP, responses leave through SimConn (records every WriteHeader with a header snapshot and every Write; can refuse writes)",
+		"Go net/http ServeMux":                "real",
+		"TCP listener, http.Server, conn":     "simulated: requests enter through ServeMux.ServeHTTP, responses leave through SimConn (records every WriteHeader with a header snapshot and every Write; can refuse writes)",
 		"clock (success()/error() timestamp)": "simulated (synctest fake clock)",
-		"handler abort":                    "injected: registered Go function __fail(k) throws before operation k",
+		"handler abort":                       "injected: registered Go function __fail(k) throws before operation k",
 	},
 }
 
